@@ -422,16 +422,16 @@ Definition do_update (ctx : kctx) (exp : N) (cb : upd_cb) (r : option row) : kre
   end.
 
 (* ------------------------------------------------------------------------------------------ *)
-(* SetWithMeta / DeleteWithMeta (writeWithMeta + storeDocument): caller-chosen CAS, no HLC draw,
-   no lastCas update                                                                            *)
+(* SetWithMeta / DeleteWithMeta (writeWithMeta + storeDocument): the document gets the caller-chosen
+   CAS; one HLC timestamp is drawn for the high-water marks (setLastCas) only                     *)
 
-Definition do_withmeta (oldcas newcas exp : N) (x : xcol) (body : option string) (isj : bool) (r : option row) : kres :=
+Definition do_withmeta (ctx : kctx) (oldcas newcas exp : N) (x : xcol) (body : option string) (isj : bool) (r : option row) : kres :=
   let prev := match r with Some r0 => r_cas r0 | None => 0 end in
   if negb (oldcas =? prev) then kfail 0 ECasMismatch r else
   let rev := match r with Some r0 => r_rev r0 + 1 | None => 1 end in
   let del := is_none body in
   let r' := new_row body isj newcas exp x del rev in
-  mkRes (Some r') ROk [mkEvent body del isj x newcas exp rev] 0 None.
+  mkRes (Some r') ROk [mkEvent body del isj x newcas exp rev] 1 (Some (k_cas ctx)).
 
 (* ------------------------------------------------------------------------------------------ *)
 (* DeleteWithXattrs / DeleteSubDocPaths                                                         *)
@@ -804,8 +804,8 @@ Definition kstep (ctx : kctx) (op : kop) (r : option row) : kres :=
   | KTouch exp => do_touch ctx exp false r
   | KGetAndTouch exp => do_touch ctx exp true r
   | KUpdate exp cb => do_update ctx exp cb r
-  | KSetWithMeta oc nc exp x body isj => do_withmeta oc nc exp x body isj r
-  | KDeleteWithMeta oc nc exp x => do_withmeta oc nc exp x None false r
+  | KSetWithMeta oc nc exp x body isj => do_withmeta ctx oc nc exp x body isj r
+  | KDeleteWithMeta oc nc exp x => do_withmeta ctx oc nc exp x None false r
   | KSetXattrs xs => do_setxattrs ctx xs r
   | KRemoveXattrs names cas => with_resp cas_to_ok (do_removexattrs ctx names cas r)
   | KDeleteSubDocPaths names => do_deletesubdocpaths ctx names r
